@@ -1,9 +1,12 @@
 package main
 
-// extraGens is extended as more generated pieces are added.
+// extraGens is extended as more generated pieces are added. Wrap every
+// generator in runGen("<name>", f): a generator that fails (die) then only
+// breaks the checks that depend on it (name "cNN" belongs to property CNN; a
+// property config may list more under "gens").
 func extraGens() {
-	genC10()
-	genC03()
-	genC15()
-	genC12()
+	runGen("c10", genC10)
+	runGen("c03", genC03)
+	runGen("c15", genC15)
+	runGen("c12", genC12)
 }
